@@ -2,7 +2,7 @@
 from experimaestro import Constant
 
 from . import zoo
-from .zoo import Color, Shade  # noqa: F401
+from .zoo import Color, Level, Mode, Shade  # noqa: F401
 
 Leaf = type(
     "Leaf",
